@@ -3,15 +3,22 @@
 (* The MEANING of a Logica program split over files (property C12).        *)
 (*                                                                         *)
 (* An import graph g (JSON-friendly; file 1 is always the main program):   *)
-(*   g.files  : Seq([path : Seq(STRING), root : 1..2])                     *)
+(*   g.files  : Seq([path : Seq(STRING), root : 1..2, decoy : 0..2])       *)
 (*              path <<"d1","util">> is the file  <root>/d1/util.l ,       *)
-(*              imported as  `import d1.util.<Pred>`                       *)
+(*              imported as  `import d1.util.<Pred>`;  decoy # 0: a SECOND *)
+(*              file with the same path and DIFFERENT contents (no imports,*)
+(*              other constant) lies under root `decoy`.  Lookup goes over *)
+(*              the ordered list of roots: the FIRST root that has the     *)
+(*              path wins (ImRealWins).                                    *)
 (*   g.imps   : Seq(Seq([t : file index, pred : STRING, alias : STRING,    *)
 (*                       used : BOOLEAN]))                                 *)
 (*              g.imps[f][j] is the j-th statement of file f:              *)
 (*                 import <path of t>.<pred> [as <alias>];                 *)
 (*              used = FALSE: no rule of f mentions the imported name      *)
-(*   g.pool   : 1..2   which pool of module contents is used               *)
+(*   g.pool   : 1..4   which pool of module contents is used (3, 4: every   *)
+(*              file has a same-named predicate Agg aggregating over       *)
+(*              several rules / over a disjunction, which the parser       *)
+(*              rewrites through auxiliary predicates)                     *)
 (*   g.nroots : 1..2   number of import roots (LOGICAPATH entries)         *)
 (*                                                                         *)
 (* Module contents (the pool): EVERY file has a private predicate called   *)
@@ -34,9 +41,16 @@ ImN(g) == Len(g.files)
 ImLocal(i) == IF i.alias # "" THEN i.alias ELSE i.pred
 ImOwn(f) == "Own" \o ToString(f)
 ImTop(f) == IF f = 1 THEN "M" ELSE "Val"
-ImConst(f) == IF f = 1 THEN 7 ELSE 10 * f + 1
-ImDefs(f) == IF f = 1 THEN {"Helper", "M"} ELSE {"Helper", "Val", ImOwn(f)}
-ImImp(g, f) == g.imps[f]
+(* File lookup over the ordered roots 1..g.nroots: the copy under the      *)
+(* smallest root index is the one that is read.                            *)
+ImRealWins(g, f) == f = 1 \/ g.files[f].decoy = 0 \/ g.files[f].root < g.files[f].decoy
+ImCopyConst(f, real) == IF f = 1 THEN 7 ELSE IF real THEN 10 * f + 1 ELSE 900 + f
+ImCopyImp(g, f, real) == IF real THEN g.imps[f] ELSE <<>>
+ImConst(g, f) == ImCopyConst(f, ImRealWins(g, f))
+ImImp(g, f) == ImCopyImp(g, f, ImRealWins(g, f))   \* the imports that are read
+ImHasAgg(g) == g.pool >= 3
+ImDefs(g, f) == (IF f = 1 THEN {"Helper", "M"} ELSE {"Helper", "Val", ImOwn(f)})
+                \cup (IF ImHasAgg(g) THEN {"Agg"} ELSE {})
 ImSucc(g, f) == {ImImp(g, f)[j].t : j \in 1..Len(ImImp(g, f))}
 
 RECURSIVE ImClose(_, _)
@@ -58,32 +72,73 @@ ImRule(h, b) == [head |-> h, distinct |-> FALSE, body |-> b]
 ImPred(n, rs) == [name |-> n, rules |-> rs, inline |-> FALSE,
                   order |-> <<>>, limit |-> -1]
 
-ImUsed(g, f) == SelectSeq(ImImp(g, f), LAMBDA i : i.used)
+ImOr(alts) == [k |-> "or", alts |-> alts]
+ImHeadAgg(x) == <<[f |-> "col0", e |-> ImLit(1), agg |-> ""],
+                  [f |-> "logica_value", e |-> x, agg |-> "Sum"]>>
+ImRuleD(h, b) == [head |-> h, distinct |-> TRUE, body |-> b]
+ImCall1(p) == [k |-> "pcall", p |-> p, args |-> <<[f |-> "col0", e |-> ImLit(1)]>>]
 
-(* The predicates of file f, names mapped by Nm.                            *)
-(*  pool 1:  Helper(c);        Top(x) :- Helper(x);                         *)
-(*  pool 2:  Helper() = c;     Top(x) :- x == Helper();                     *)
-(*  both:    Top(x) :- L(x);   for every import whose local name L is used  *)
-(*           Own<f>(y + 1) :- <y bound to Helper>;          (f > 1 only)    *)
-ImFilePreds(g, f, Nm(_)) ==
-  LET c == ImConst(f)
+(* The predicates of one physical copy of file f (real: the module of the  *)
+(* graph with its imports; ~real: the decoy), names mapped by Nm.          *)
+(*  pool 1,3:  Helper(c);        Top(x) :- Helper(x);                       *)
+(*  pool 2,4:  Helper() = c;     Top(x) :- x == Helper();                   *)
+(*  all:       Top(x) :- L(x);   for every import whose local name L is used*)
+(*             Own<f>(y + 1) :- <y bound to Helper>;         (f > 1 only)   *)
+(*  pool 3:    Agg(1) += x :- <x bound to Helper>;                          *)
+(*             Agg(1) += y + 1 :- <y bound to Helper>;                      *)
+(*             Agg(1) += x :- L(x);              for every used import     *)
+(*             Top(x) :- x == Agg(1);                                       *)
+(*  pool 4:    the same Agg as ONE rule whose body is the disjunction       *)
+(*             (Hx | Hy, x == y + 1 | L(x) | ...)                           *)
+ImCopyPreds(g, f, real, Nm(_)) ==
+  LET c == ImCopyConst(f, real)
       H == Nm("Helper")
-      helper == IF g.pool = 1
+      fun == g.pool \in {2, 4}
+      helper == IF ~fun
                 THEN ImPred(H, <<ImRule(ImHead1(ImLit(c)), <<>>)>>)
                 ELSE ImPred(H, <<ImRule(ImHeadV(ImLit(c)), <<>>)>>)
-      Hx(v) == IF g.pool = 1 THEN ImAtom(H, ImVar(v))
+      Hx(v) == IF ~fun THEN ImAtom(H, ImVar(v))
                ELSE ImUnify(ImVar(v), ImCall(H))
-      us == ImUsed(g, f)
+      us == SelectSeq(ImCopyImp(g, f, real), LAMBDA i : i.used)
+      L(j) == ImAtom(Nm(ImLocal(us[j])), ImVar("x"))
+      aggtop == IF ImHasAgg(g)
+                THEN <<ImRule(ImHead1(ImVar("x")),
+                              <<ImUnify(ImVar("x"), ImCall1(Nm("Agg")))>>)>>
+                ELSE <<>>
       top == ImPred(Nm(ImTop(f)),
                <<ImRule(ImHead1(ImVar("x")), <<Hx("x")>>)>> \o
-               [j \in 1..Len(us) |->
-                  ImRule(ImHead1(ImVar("x")),
-                         <<ImAtom(Nm(ImLocal(us[j])), ImVar("x"))>>)])
+               [j \in 1..Len(us) |-> ImRule(ImHead1(ImVar("x")), <<L(j)>>)] \o
+               aggtop)
       own == ImPred(Nm(ImOwn(f)),
                <<ImRule(ImHead1(ImPlus(ImVar("y"), ImLit(1))), <<Hx("y")>>)>>)
-  IN IF f = 1 THEN <<helper, top>> ELSE <<helper, top, own>>
+      agg == IF g.pool = 3
+             THEN <<ImPred(Nm("Agg"),
+                      <<ImRuleD(ImHeadAgg(ImVar("x")), <<Hx("x")>>),
+                        ImRuleD(ImHeadAgg(ImPlus(ImVar("y"), ImLit(1))), <<Hx("y")>>)>> \o
+                      [j \in 1..Len(us) |-> ImRuleD(ImHeadAgg(ImVar("x")), <<L(j)>>)])>>
+             ELSE IF g.pool = 4
+             THEN <<ImPred(Nm("Agg"),
+                      <<ImRuleD(ImHeadAgg(ImVar("x")),
+                          <<ImOr(<< <<Hx("x")>>,
+                                    <<Hx("y"), ImUnify(ImVar("x"), ImPlus(ImVar("y"), ImLit(1)))>> >> \o
+                                 [j \in 1..Len(us) |-> <<L(j)>>])>>)>>)>>
+             ELSE <<>>
+  IN (IF f = 1 THEN <<helper, top>> ELSE <<helper, top, own>>) \o agg
 
-ImModule(g, f) == ImFilePreds(g, f, LAMBDA n : n)   \* the text of file f
+ImFilePreds(g, f, Nm(_)) == ImCopyPreds(g, f, ImRealWins(g, f), Nm)
+
+ImModule(g, f) == ImFilePreds(g, f, LAMBDA n : n)   \* the text of the copy of f that is read
+ImCopyModule(g, f, real) == ImCopyPreds(g, f, real, LAMBDA n : n)
+(* all physical files: <<file, root, is the real module, imports, predicates>> *)
+ImCopies(g) ==
+  LET One(f) == <<[f |-> f, root |-> g.files[f].root, real |-> TRUE,
+                   imps |-> g.imps[f], mod |-> ImCopyModule(g, f, TRUE)]>> \o
+                (IF g.files[f].decoy = 0 THEN <<>>
+                 ELSE <<[f |-> f, root |-> g.files[f].decoy, real |-> FALSE,
+                         imps |-> <<>>, mod |-> ImCopyModule(g, f, FALSE)]>>)
+      RECURSIVE Go(_)
+      Go(f) == IF f > ImN(g) THEN <<>> ELSE One(f) \o Go(f + 1)
+  IN Go(2)
 
 -----------------------------------------------------------------------------
 (* Flattening: unique names.  A name mentioned in file f means the         *)
@@ -118,8 +173,8 @@ ImAllImps(g) == LET R == ImReach(g)
                 IN {fj \in (1..ImN(g)) \X (1..4) :
                       fj[1] \in R /\ fj[2] <= Len(ImImp(g, fj[1]))}
 ImI(g, fj) == ImImp(g, fj[1])[fj[2]]
-ImUndefinedIn(g, A) == \E fj \in A : ImI(g, fj).pred \notin ImDefs(ImI(g, fj).t)
-ImRedefIn(g, A) == \E fj \in A : ImLocal(ImI(g, fj)) \in ImDefs(fj[1])
+ImUndefinedIn(g, A) == \E fj \in A : ImI(g, fj).pred \notin ImDefs(g, ImI(g, fj).t)
+ImRedefIn(g, A) == \E fj \in A : ImLocal(ImI(g, fj)) \in ImDefs(g, fj[1])
 ImUnusedIn(g, A) == \E fj \in A : ~ImI(g, fj).used
 ImUndefined(g) == ImUndefinedIn(g, ImAllImps(g))
 ImRedef(g) == ImRedefIn(g, ImAllImps(g))
@@ -146,6 +201,9 @@ ImInFragment(g) ==
          \/ k = 3 /\ ImRedefIn(g, A)
          \/ k = 4 /\ ImUnusedIn(g, A)}) <= 1
   /\ \A f, h \in 1..ImN(g) : f # h => g.files[f].path # g.files[h].path
+  /\ \A f \in 1..ImN(g) :
+        g.files[f].decoy # 0 =>
+          f # 1 /\ g.files[f].decoy \in 1..g.nroots /\ g.files[f].decoy # g.files[f].root
 
 -----------------------------------------------------------------------------
 (* Shapes (coverage).                                                      *)
@@ -162,7 +220,11 @@ ImShapes(g) ==
   (IF \E fj \in ImAllImps(g) : ImI(g, fj).alias # "" THEN {"alias"} ELSE {}) \cup
   (IF \E fj \in ImAllImps(g) : ImI(g, fj).alias = "" THEN {"no_alias"} ELSE {}) \cup
   (IF g.nroots = 2 /\ {g.files[f].root : f \in R \ {1}} = {1, 2} THEN {"two_roots"} ELSE {}) \cup
-  (IF g.pool = 2 THEN {"functional_helper"} ELSE {"table_helper"}) \cup
+  (IF g.pool \in {2, 4} THEN {"functional_helper"} ELSE {"table_helper"}) \cup
+  (IF g.pool = 3 THEN {"agg_multi_rule"} ELSE {}) \cup
+  (IF g.pool = 4 THEN {"agg_disjunction"} ELSE {}) \cup
+  (IF \E f \in R : g.files[f].decoy # 0 /\ ImRealWins(g, f) THEN {"shadow_real_first"} ELSE {}) \cup
+  (IF \E f \in R : ~ImRealWins(g, f) THEN {"shadow_decoy_first"} ELSE {}) \cup
   {ImExpect(g)}
 
 -----------------------------------------------------------------------------
